@@ -141,7 +141,9 @@ def _run_shape(case):
                 n += 1
                 if np.array_equal(np.asarray(k1), np.asarray(k0)) or np.array_equal(np.asarray(k2), np.asarray(k1)):
                     fails.append(core.fail("key_not_advanced", f"{hname} real source"))
-                if max(n_in, n_out) * d >= 4 and np.array_equal(np.asarray(a), np.asarray(b)):
+                # the estimate depends on the probes only if the probed space (n_in*d forward, n_out*d reverse) has off-diagonal terms
+                probe_dim = (n_in if hname == "mc_fwd" else n_out) * d
+                if probe_dim >= 4 and np.array_equal(np.asarray(a), np.asarray(b)):
                     fails.append(core.fail("same_probes_reused", f"{hname}: two successive estimates are identical"))
     finally:
         prandom.rademacher = orig
